@@ -206,10 +206,33 @@ pub fn ops_strategy(n_peers: u8, mix: Mix, max_fragments: usize) -> BoxedStrateg
     let exchange = (0u8..n, 0u8..n, body(), prop_oneof![4 => Just(true), 1 => Just(false)])
         .prop_map(|(from, to, body, with_record)| vec![Op::Submit { from, to, body, with_record }, Op::DeliverAll])
         .boxed();
+    // a handshake that arrives after its challenge has expired, while the challenged peer kept
+    // knocking in between: request -> WHOAREYOU -> handshake (held back) ... time ... a second request
+    // of the same peer (undecryptable for the challenger, who still has no session) ... time ...
+    // the held handshake is delivered more than a challenge lifetime after the WHOAREYOU
+    let late_handshake = (0u8..n, 0u8..n, prop_oneof![Just(Dt::TimeoutFrac40), Just(Dt::Timeout)], 1usize..=3, any::<bool>())
+        .prop_map(|(from, to, last, knocks, with_record)| {
+            let answer = |node: u8| Op::AnswerWru { node, sel: 0, know: Know::Current };
+            let mut v = vec![Op::DeliverAll, Op::Submit { from, to, body: Body::Ping, with_record }, Op::Deliver(0), answer(to), Op::Deliver(0)];
+            // the handshake is in the pool now and stays there
+            v.push(Op::Advance(Dt::TimeoutFrac40));
+            for _ in 0..knocks {
+                v.push(Op::Submit { from, to, body: Body::Ping, with_record });
+                v.push(Op::Deliver(65535));
+                v.push(answer(to));
+            }
+            v.push(Op::Advance(Dt::TimeoutFrac40));
+            v.push(Op::Advance(last));
+            v.push(Op::Deliver(0));
+            v.push(Op::DeliverAll);
+            v
+        })
+        .boxed();
     let frag = match mix {
         Mix::Identity => prop_oneof![3 => single, 2 => attack].boxed(),
         Mix::Exemptions => prop_oneof![6 => single, 1 => attack].boxed(),
-        Mix::Tamper | Mix::Replay => prop_oneof![5 => single, 1 => exchange].boxed(),
+        Mix::Tamper => prop_oneof![5 => single, 1 => exchange].boxed(),
+        Mix::Replay => prop_oneof![30 => single, 6 => exchange, 1 => late_handshake].boxed(),
         _ => single,
     };
     proptest::collection::vec(frag, 1..max_fragments)
